@@ -299,6 +299,7 @@ func runC04(c *Ctx) {
 	checkSnaclErrors(c, "C04-R7")
 	checkSelectedKeyUsedUnderLock(c, "C04-R6")
 	checkLiveKeysUsedUnderLock(c, "C04-R6")
+	checkUnlockedFlagSetLast(c, "C04-R6")
 	// live crypto keys never wiped through an aliasing accessor outside the wipe functions
 	nZero := 0
 	for _, fn := range p.FuncsIn("waddrmgr") {
